@@ -352,6 +352,7 @@ Definition crun (evs : list pevent) (r : crep) : crep := fold_left cstep evs r.
 (** one history: the HistoricalEntries parameter of its genesis and, for every BLOCKHASH the
     environment-probe contract evaluated in a delivered transaction or an eth_call
     (context height, requested height as the 256-bit word, answer was non-zero) *)
+Definition two256 : Z := 2 ^ 256.   (* the harness writes a wrapped word as (two256 - d) *)
 Definition bh_obs := (Z * Z * bool)%type.
 Definition bh_case := (Z * list bh_obs)%type.
 Definition check_bh (c : bh_case) : bool :=
